@@ -30,7 +30,7 @@ def rand_item(rng, d):
     if name == 'bool': return rng.random() < 0.5
     if name == 'bytes': return {'b': [rng.randrange(256) for _ in range(w // 8)]}
     if name == 'bits': return {'bits': ''.join(rng.choice('01') for _ in range(w))}
-    return rng.choice([0.0, 1.0, -1.5, 0.25, 2.0, 3.0, -0.5])
+    return rng.choice([0.0, 1.0, -1.5, 0.25, 2.0, 3.0, -0.5, -0.0, 0.0, -0.0])
 
 def gen_step(rng, d, n):
     op = rng.choice(['getitem', 'getslice', 'setitem', 'setslice', 'delitem', 'delslice', 'append', 'extend', 'insert', 'pop', 'reverse', 'count', 'copy', 'iter', 'equals', 'astype', 'scalar_op', 'array_op', 'inplace_op', 'byteswap'])
@@ -54,13 +54,27 @@ def gen_step(rng, d, n):
 
 def gen_cases(rng, tier):
     N = 240 if tier == 'quick' else 4000
+    # documented type promotion of element-wise operators between two Arrays, for every pair of dtypes
+    for d1 in PROMO:
+        for d2 in PROMO:
+            if tier == 'quick' and rng.random() < 0.7: continue
+            yield {'op': 'promote', 'd1': d1, 'd2': d2, 'f': rng.choice(['mul', 'mul', 'add', 'sub'])}
+    # the same programs under options.lsb0: an Array is the same list of items in both bit numberings
+    for _ in range(N // 4):
+        d = rng.choice(DTYPES)
+        n = rng.randrange(0, 7)
+        yield {'op': 'program', 'dtype': d, 'items': [rand_item(rng, d) for _ in range(n)], 'trail': '', 'lsb0': True,
+               'steps': [gen_step(rng, d, n) for _ in range(rng.randrange(1, 8))], 'seed': rng.randrange(1 << 30)}
     for _ in range(N):
         d = rng.choice(DTYPES)
         n = rng.randrange(0, 7)
         yield {'op': 'program', 'dtype': d, 'items': [rand_item(rng, d) for _ in range(n)], 'trail': rand_bits(rng, rng.choice([0, 0, 0, 1, 2, 3])),
                'steps': [gen_step(rng, d, n) for _ in range(rng.randrange(1, 15))], 'seed': rng.randrange(1 << 30)}
 
-def kind(c): return c['dtype']
+PROMO = ['uint8', 'uint5', 'int7', 'int16', 'uint16', 'int8', 'float16', 'float32', 'float64', 'bfloat', 'e4m3mxfp', 'e5m2mxfp', 'e3m2mxfp', 'e2m3mxfp', 'e2m1mxfp', 'e8m0mxfp', 'mxint',
+         'p4binary', 'p3binary', 'bool', 'uintle16', 'intbe16', 'hex4', 'bytes1']
+
+def kind(c): return c.get('dtype', c['op'])
 
 def pv(v):
     import bitstring
@@ -140,6 +154,20 @@ def apply_impl(a, st, rng):
 def run_impl(c):
     import bitstring, random
     from bitstring import Array, Bits
+    if c['op'] == 'promote':
+        def one(d):
+            a = Array(d)
+            if a.dtype.return_type in (float,): return Array(d, [1.0, 1.0])
+            if a.dtype.return_type is bool: return Array(d, [True, True])
+            if a.dtype.return_type is int: return Array(d, [1, 1])
+            if d.startswith('hex'): return Array(d, ['1', '1'])
+            return Array(d, [b'a', b'a'])
+        def f():
+            a, b = one(c['d1']), one(c['d2'])
+            r = OPS[c['f']](a, b)
+            return [str(r.dtype), [cv(x) for x in r.tolist()], str(a.dtype), str(b.dtype)]
+        return attempt(f)
+    bitstring.options.lsb0 = bool(c.get('lsb0'))         # reset by the driver
     rng = random.Random(c['seed'])
     def build():
         return Array(c['dtype'], [pv(v) for v in c['items']], trailing_bits=Bits(bin=c['trail']) if c['trail'] else None)
@@ -190,7 +218,26 @@ def oracle(c, obs):
         import traceback
         return 'oracle error: ' + traceback.format_exc()[-300:]
 
+def promo_rule(d1, d2):
+    """the documented rules (Array._promotetype docstring / doc/array.rst): only int and float kinds; float beats int; signed int beats unsigned int;
+    longer beats shorter; a tie goes to the first"""
+    from bitstring import Array
+    t1, t2 = Array(d1).dtype, Array(d2).dtype
+    fl = lambda t: t.return_type is float
+    it = lambda t: t.return_type is int or t.return_type is bool
+    if not ((fl(t1) or it(t1)) and (fl(t2) or it(t2))): return None
+    if fl(t1) != fl(t2): return t1 if fl(t1) else t2
+    if it(t1) and t1.is_signed != t2.is_signed and t1.name != t2.name: return t1 if t1.is_signed else t2
+    return t2 if t2.length > t1.length else t1
+
 def oracle_(c, obs):
+    if c['op'] == 'promote':
+        exp = promo_rule(c['d1'], c['d2'])
+        if exp is None:
+            return None if obs[0] == 'err' and obs[1] in ('ValueError', 'TypeError') else f"Arrays of {c['d1']} and {c['d2']} (not both int/float) combined: {obs}"
+        if obs[0] != 'ok': return None          # the result may not fit the promoted type (it raises, as documented)
+        if obs[1][0] != str(exp): return f"Array({c['d1']}) {c['f']} Array({c['d2']}) has dtype {obs[1][0]}; the documented promotion gives {exp}"
+        return None
     o = obs[1]
     if o['init'][0] != 'ok': return f"Array({c['dtype']!r}, {c['items']}) could not be built: {o['init']}"
     name, w = dtype_info(c['dtype'])
@@ -296,7 +343,7 @@ def oracle_(c, obs):
         if r[0] == 'err' and after != before: return f"{where} raised {r[1]} and left the Array changed: {after}"
         # data is always the concatenation of the item encodings followed by the trailing bits
         encs = [enc_item(dt2, x) for x in its2]
-        if all(e is not None for e in encs) and not dt2.startswith('Dtype') and ['f', 'nan'] not in its2:
+        if all(e is not None for e in encs) and not dt2.startswith('Dtype') and ['f', 'nan'] not in its2 and not c.get('lsb0'):
             if ''.join(encs) + trail2 != data2: return f"{where}: data {data2!r} is not the concatenation of the item encodings {encs} + trailing {trail2!r}"
         # element-wise operators
         if op == 'scalar_op' and r[0] == 'err' and dtype_info(dt)[0] in ('uint', 'int') and not trail and isinstance(st.get('x'), int) \
@@ -322,11 +369,12 @@ def oracle_(c, obs):
                 if got != exp: return f"{where}: element-wise result {got}, map gives {exp}"
     return None
 
-def nontrivial(c, obs): return any(s['op'] in ('setitem', 'setslice', 'delitem', 'delslice', 'append', 'extend', 'insert', 'pop', 'reverse', 'inplace_op') for s in c['steps'])
+def nontrivial(c, obs): return c['op'] == 'program' and any(s['op'] in ('setitem', 'setslice', 'delitem', 'delslice', 'append', 'extend', 'insert', 'pop', 'reverse', 'inplace_op') for s in c['steps'])
 def classify(c, obs): return None
 
 def coq_check(c, obs):
     """index / assignment / deletion / insert / append on the data bits, for dtypes whose item is w bits"""
+    if c['op'] != 'program' or c.get('lsb0'): return None         # the Array model is stated for msb0 data layout
     o = obs[1]
     if o['init'][0] != 'ok': return None
     name, w = dtype_info(c['dtype'])
